@@ -99,3 +99,58 @@ Example C14_nonvacuous :
   (* an empty match to the right of the start of the rest is replaced once: "b c" -> "b Xc" *)
   subst_line find_c [88] true [98; 32; 99; 10] = Changed [98; 32; 88; 99; 10].
 Proof. vm_compute. repeat split; reflexivity. Qed.
+
+(* ------------------------------------------------------------------------------------------------
+   Composition with the regex model (appended by the composition round; proofs in coq/ComposeSubst.v).
+   The matcher is no longer a parameter: ComposeSubst.engine_find d ic pat is the MODEL of
+     re = rstr_make(pat, xic ? RE_ICASE : 0);  rstr_find(re, ln, 16, offs, r ? RE_NOTBOL : 0) >= 0
+   -- rstr.c's literal fast path (RstrDefs) for a simple pattern, rset_make / rset_find of the regex model
+   (RsetDefs, ReVM; recursion limit d, any d) otherwise.  The hypothesis wf_find of C14_utf8 is discharged
+   from C11_exec_bounds + C11_char_boundaries (0 <= so <= eo <= |text|, offsets on character boundaries) and,
+   for the fast path, through C12_fastpath_engine. *)
+From NV Require ComposeSubst RstrDefs.
+
+(* valid UTF-8 in, valid UTF-8 out, with no hypothesis about the matcher: for every pattern chars pcs and replacement
+   chars rs (valid UTF-8; the pattern holds no newline -- ex_arg_s ends an ex command at a newline) and every line
+   chars cs ++ "\n" of valid UTF-8 whose only newline is the last byte, with or without g / ignore-case, at every
+   recursion limit of the engine: the line ec_substitute writes back is valid UTF-8 *)
+Theorem C14_utf8_engine : forall d ic gflag pcs rs cs new,
+  Forall scalar pcs -> ~ In 10 pcs -> Forall scalar rs -> Forall scalar cs -> ~ In 10 cs ->
+  subst_line (ComposeSubst.engine_find d ic (chars pcs)) (chars rs) gflag (chars (cs ++ [10])) = Changed new -> valid new.
+Proof. exact ComposeSubst.utf8_engine. Qed.
+Print Assumptions C14_utf8_engine.
+
+(* a pattern that is not of the form [^][\<]literal[\>][$] goes to the general engine: there the hypothesis wf_find of
+   C14_utf8 holds as it stands (any valid line, no newline conditions) *)
+Theorem C14_wf_find_engine : forall d ic pcs, Forall scalar pcs -> RstrDefs.rstr_simple ic (chars pcs) = None ->
+  wf_find (ComposeSubst.engine_find d ic (chars pcs)).
+Proof. exact ComposeSubst.wf_find_general. Qed.
+Print Assumptions C14_wf_find_engine.
+
+Theorem C14_utf8_engine_general : forall d ic gflag pcs rs cs new,
+  Forall scalar pcs -> RstrDefs.rstr_simple ic (chars pcs) = None -> Forall scalar rs -> Forall scalar cs ->
+  subst_line (ComposeSubst.engine_find d ic (chars pcs)) (chars rs) gflag (chars cs) = Changed new -> valid new.
+Proof. exact ComposeSubst.utf8_engine_general. Qed.
+Print Assumptions C14_utf8_engine_general.
+
+(* C14_structure over the modelled matcher: the chain of successive matches is a chain of answers of the modelled
+   rstr_find (first search on the whole line, later ones on the rest with RE_NOTBOL), and every answer it can give on a
+   newline-terminated valid text hands replace() sixteen pairs that are unset or whole-character spans inside that text *)
+Theorem C14_structure_engine : forall d ic gflag pcs rep cs new,
+  Forall scalar pcs -> ~ In 10 pcs -> Forall scalar cs -> ~ In 10 cs ->
+  subst_line (ComposeSubst.engine_find d ic (chars pcs)) rep gflag (chars (cs ++ [10])) = Changed new ->
+  (exists segs tail, segs <> [] /\
+     Chain (ComposeSubst.engine_find d ic (chars pcs)) rep gflag false (chars (cs ++ [10])) segs tail /\
+     chars (cs ++ [10]) = flat_old segs ++ tail /\ new = flat_new segs ++ tail /\ (gflag = false -> length segs = 1%nat)) /\
+  (forall l0 nb offs, Forall scalar l0 -> ~ In 10 l0 ->
+     ComposeSubst.engine_find d ic (chars pcs) (chars (l0 ++ [10])) nb = Some offs -> Forall (wf_grp (l0 ++ [10])) offs).
+Proof. exact ComposeSubst.structure_engine. Qed.
+Print Assumptions C14_structure_engine.
+
+(* non-vacuity over the modelled engine: s/a*b/[\0]/g on "xaab ab" (general engine), s/é/e/ on "café" (fast path) *)
+Example C14_engine_nonvacuous :
+  subst_line (ComposeSubst.engine_find 256 false (chars [97; 42; 98])) (chars [91; 92; 48; 93]) true (chars ([120; 97; 97; 98; 32; 97; 98] ++ [10]))
+    = Changed (chars [120; 91; 97; 97; 98; 93; 32; 91; 97; 98; 93; 10]) /\
+  subst_line (ComposeSubst.engine_find 256 false (chars [233])) (chars [101]) false (chars ([99; 97; 102; 233] ++ [10]))
+    = Changed (chars [99; 97; 102; 101; 10]).
+Proof. exact ComposeSubst.engine_nonvacuous. Qed.
